@@ -51,6 +51,10 @@ class Contract:
     def hooks(self, ctx):
         return {}
 
+    def allow_vacuous(self, st):
+        """structures on which the function is expected to raise on every path"""
+        return False
+
     def may_raise(self, ctx, etype):
         """condition under which raising is permitted: True (partial correctness, default),
         False when `total`, or a formula over the inputs"""
@@ -224,7 +228,7 @@ def run_structure(contract, label, st, mutant=None, stop_on_refute=False):
             o = obl.setdefault(c, dict(status="discharged", detail="", model=None, replay_src=None, paths=0))
             if o["status"] == "discharged":
                 o.update(status="undecided", detail="unsupported path: " + star["detail"])
-    vacuous = counts["returned"] == 0 and not contract.total
+    vacuous = counts["returned"] == 0 and not contract.allow_vacuous(st)
     return dict(
         contract=contract.name,
         structure=label,
